@@ -82,6 +82,46 @@ let percent () =
     | PSOk specs -> "pyscan=" ^ str_specs specs ^ " pyraises=" ^ (if py_raises is_bytes specs a then "1" else "0") in
   print_endline (pa ^ " " ^ py)
 
+(* F <n> code*n <nargs> <nkw> (<n> code*n)*nkw *)
+let str_argname = function ANone -> "auto" | ANum n -> "#" ^ string_of_n n | AName s -> "n" ^ str_codes s
+let str_field fd =
+  str_argname fd.f_name ^ "/" ^
+  String.concat "" (List.map (fun (i, s) -> (if i then "[" else ".") ^ str_codes s) fd.f_path) ^ "/" ^
+  (match fd.f_conv with None -> "-" | Some c -> string_of_int (int_of_n c))
+let str_fields l = if l = [] then "none" else String.concat ";" (List.map str_field l)
+let str_perr = function
+  | PExpectedClose -> "PExpectedClose" | PSingleClose -> "PSingleClose" | PExpectedOneOfAll -> "PExpectedOneOfAll"
+  | PExpectedOneOfTwo -> "PExpectedOneOfTwo" | PInvalidAttribute -> "PInvalidAttribute"
+  | PExpectedBracket -> "PExpectedBracket" | PUnknownConversion -> "PUnknownConversion" | PUnexpectedOpen -> "PUnexpectedOpen"
+let str_ferr = function
+  | FTooFew -> "FTooFew" | FOutOfRange -> "FOutOfRange" | FNotGiven -> "FNotGiven"
+  | FUnusedNumbered -> "FUnusedNumbered" | FUnusedNamed -> "FUnusedNamed"
+let format () =
+  let t = codes () in
+  let nargs = n_of_int (next_int ()) in
+  let nkw = next_int () in
+  let kw = List.init nkw (fun _ -> codes ()) in
+  let pa =
+    match pa_parse t with
+    | None -> "FUEL"
+    | Some (fs, errs) ->
+      "fields=" ^ str_fields fs ^ " errs=" ^
+      (if errs = [] then "none" else String.concat "," (List.map (fun (p, e) -> string_of_n p ^ ":" ^ str_perr e) errs)) ^
+      " check=" ^
+      (match pa_format_check t nargs kw with
+       | None -> "FUEL"
+       | Some (RParse (p, e)) -> "parse:" ^ str_perr e
+       | Some (RFields l) -> str_list str_ferr l) in
+  let py =
+    (match py_parse t with
+     | PYFuel -> "pyparse=FUEL"
+     | PYRaise -> "pyparse=RAISE mix=0"
+     | PYOk fs -> "pyparse=" ^ str_fields fs ^ " mix=" ^ (if mix_clause fs then "1" else "0")) ^
+    " verdict=" ^
+    (match py_format_verdict t nargs kw with
+     | VRaises -> "raises" | VFine -> "fine" | VUndecided -> "undecided" | VFuel -> "FUEL") in
+  print_endline (pa ^ " " ^ py)
+
 let () =
   try
     while true do
@@ -91,6 +131,7 @@ let () =
       (try
         match next () with
         | "P" -> percent ()
+        | "F" -> format ()
         | t -> print_endline ("ERR unknown mode " ^ t)
       with e -> print_endline ("ERR " ^ Printexc.to_string e))
     done
